@@ -249,61 +249,48 @@ func (st *DelegationStore) AddToAddress(validatorAddress keys.Address, delegator
 }
 
 func (st *DelegationStore) MinusFromAddress(validatorAddress keys.Address, delegatorAddress keys.Address, coin balance.Amount) error {
-	// st_v_ operation
+	// all three amounts are checked before the first of them is written: the block end calls this
+	// outside of a transaction session, where a failure half way would stay in the state
 
-	// take current total effective amount from total
+	// st_v_ operation: take current total effective amount from total
 	totalEffectiveCoin, err := st.GetValidatorAmount(validatorAddress)
 	if err != nil {
 		return err
 	}
-
-	// withdraw from total
 	newTotalEffectiveCoin, err := totalEffectiveCoin.Minus(coin)
 	if err != nil {
 		return err
 	}
 
-	// update a new total amount
-	err = st.SetValidatorAmount(validatorAddress, *newTotalEffectiveCoin)
-	if err != nil {
-		return err
-	}
-
-	// st_e_ operation
-
-	// take current validator-delegator effective amount
+	// st_e_ operation: take current validator-delegator effective amount
 	validatorDelegatedCoin, err := st.GetValidatorDelegationAmount(validatorAddress, delegatorAddress)
 	if err != nil {
 		return err
 	}
-
-	// withdraw from total
 	newvalidatorDelegatedCoin, err := validatorDelegatedCoin.Minus(coin)
 	if err != nil {
 		return err
 	}
 
-	// update a new vd effective amount
-	err = st.SetValidatorDelegationAmount(validatorAddress, delegatorAddress, *newvalidatorDelegatedCoin)
-	if err != nil {
-		return err
-	}
-
-	// st_d_e_ operation
-
-	// take current delegated effective amount
+	// st_d_e_ operation: take current delegated effective amount
 	delegatedEffectiveCoin, err := st.GetDelegatorEffectiveAmount(delegatorAddress)
 	if err != nil {
 		return err
 	}
-
-	// withdraw from total
 	newDelegatedEffectiveCoin, err := delegatedEffectiveCoin.Minus(coin)
 	if err != nil {
 		return err
 	}
 
-	// update a new vd effective amount
+	// update the three amounts
+	err = st.SetValidatorAmount(validatorAddress, *newTotalEffectiveCoin)
+	if err != nil {
+		return err
+	}
+	err = st.SetValidatorDelegationAmount(validatorAddress, delegatorAddress, *newvalidatorDelegatedCoin)
+	if err != nil {
+		return err
+	}
 	err = st.SetDelegatorEffectiveAmount(delegatorAddress, *newDelegatedEffectiveCoin)
 	if err != nil {
 		return err
